@@ -120,7 +120,7 @@ def run(rep):
     wd = rep.workdir
     from spec import prompts as spec
     session_names = None
-    additive = not thorough
+    additive = False     # the full host grammar in both tiers (the one-pass search made the additive quick form unnecessary)
     info_all = {}
 
     # 1. generated facts about the cache, general theorems
@@ -258,7 +258,7 @@ def run(rep):
     rep.coverage["generated_from"] = common.source_hashes(SOURCES)
     rep.coverage["grammar_tier"] = ("thorough: host names = every string of the host grammar up to the patterns' limit; all 9 session names"
                                     if thorough else
-                                    "quick: NX-OS/EOS host names in additive form (hyphen-free up to the limit, or <= 24 characters with hyphens); session names s1 (NX-OS) / s1, abcde-x (EOS)")
+                                    "quick: the same host grammar; session names s1 (NX-OS) / s1, abcde-x (EOS)")
     rep.rule = ("obligation = (platform, table variant, mode); fact = (grammar, level, expected) or (grammar, combined pattern), decided on the whole "
                 "regular language by a validated closed certificate; correspondence cases = (table, prompt string): members of each grammar "
                 "(boundary lengths favoured), one- and two-edit near-misses, carved-out strings; non-trivial = the prompt is matched by at least one level; "
@@ -606,8 +606,7 @@ MANIFEST = {
             "C05_cache_transparent: for EVERY history of classification queries and table updates the lru_cache in front of the classifier is invisible, given that "
             "update_privilege_levels clears it and register_configuration_session calls it (facts read from the source by ast on every run); refuted without the clear. "
             "Known findings are carved out of the grammars by explicit regexes (NX-OS host names containing -tcl or config-s-, Junos user names ending in root in configuration "
-            "mode, the word root in a non-root shell prompt) and replayed on every run. quick tier: NX-OS/EOS host names in additive form (hyphen-free up to the limit, or "
-            "<= 24 characters with hyphens), session names s1 / abcde-x; thorough: the full host grammar and 9 session names.",
+            "mode, the word root in a non-root shell prompt) and replayed on every run. quick tier: session names s1 (NX-OS) / s1, abcde-x (EOS); thorough: 9 session names. Both tiers decide the full host grammar.",
     "note": "Trusted: Coq kernel + vm_compute; the prompt grammars and their carve-outs (hand-written specification, spec/prompts.py); gen/regex.py (CPython's own regex parser and "
             "per-byte class membership) and gen/gen_prompts.py; the derivative engine IS the regex semantics of the theorems and is confronted with CPython re on every run "
             "(regex-conformance on all level and combined patterns); Prompt.classify is confronted with the real _determine_current_priv of sync and asyncio drivers on grammar "
